@@ -10,17 +10,17 @@ from . import c12
 
 LEVEL = "other"
 EXPLANATION = (
-    "Static analysis of both api.py: R1 every status->API translation table is total over the status enum it is indexed by (no defined value "
-    "raises KeyError) and maps by name, with exactly the property's exceptions (selected AUTO_HEAT/AUTO_COOL -> AUTO, active -> HEAT/COOL; "
-    "selected INTELLIGENT_AUTO_x -> INTELLIGENT_AUTO, active -> x), tables being identified through the getter that uses them; R2 every update_* "
-    "stores the new record on every path on which it can differ from the stored one; R3 getter provenance: each public attribute returns exactly "
-    "its field of the stored record (through its table where one exists); R4 status frames are dispatched by the record's own id to that entity's"
-    " update method and unknown ids are skipped without ending the loop, and the dispatch is not narrowed by guards one generation has and the "
-    "other lacks; R5 AT5 limits follow the mode; R6 error details are exposed only under has_error() and the stored text is cleared when a status"
-    " without error arrives."
+    'Static analysis of both api.py: R1 every status->API translation table is total over the status enum it is indexed by (no defined value raises '
+    "KeyError) and maps by name, with exactly the property's exceptions (selected AUTO_HEAT/AUTO_COOL -> AUTO, active -> HEAT/COOL; selected "
+    'INTELLIGENT_AUTO_x -> INTELLIGENT_AUTO, active -> x), tables being identified through the getter that uses them; R2 every update_* stores the new '
+    'record on every path on which it can differ from the stored one; R3 getter provenance: each public attribute returns exactly its field of the stored '
+    'record (through its table where one exists; a getter that delegates to a sibling property reads what that property reads); R4 status frames are '
+    "dispatched by the record's own id to that entity's update method and unknown ids are skipped without ending the loop, and the dispatch is not narrowed "
+    'by guards one generation has and the other lacks; R5 AT5 limits follow the mode; R6 error details are exposed only under has_error() and the stored '
+    'text is cleared when a status without error arrives; R7 the zone list handed out is not the stored one (C11.R2 re-used).'
 )
 ASSUMPTIONS = ["Enum members are compared by identity; dict lookup of a missing key raises KeyError"]
-FLOORS = {"C10.R1": 14, "C10.R2": 10, "C10.R3": 40, "C10.R4": 8, "C10.R5": 6, "C10.R6": 6}
+FLOORS = {"C10.R1": 14, "C10.R2": 10, "C10.R3": 40, "C10.R4": 8, "C10.R5": 6, "C10.R6": 6, "C10.R7": 1}
 
 # getter -> how names are translated (None = identity)
 def _selected_mode(n):
